@@ -32,6 +32,19 @@ def _float_to_yaml(value: float) -> str:
         value).value)
 
 
+def _int_to_yaml(value: int) -> str:
+    """Returns the YAML text for an int.
+
+    Python refuses to write an int with thousands of digits in decimal,
+    although one can be loaded from a hexadecimal number. Those are
+    written in hexadecimal, which YAML reads as well.
+    """
+    try:
+        return str(value)
+    except ValueError:
+        return hex(value)
+
+
 class Node:
     """A wrapper class for yaml Nodes that provides utility functions.
 
@@ -144,6 +157,8 @@ class Node:
             value_str = 'null'
         elif isinstance(value, float):
             value_str = _float_to_yaml(value)
+        elif isinstance(value, int):
+            value_str = _int_to_yaml(value)
         else:
             value_str = str(value)
         start_mark = self.yaml_node.start_mark
@@ -294,7 +309,8 @@ class Node:
             value_node = yaml.ScalarNode('tag:yaml.org,2002:bool', value_str,
                                          start_mark, end_mark)
         elif isinstance(value, int):
-            value_node = yaml.ScalarNode('tag:yaml.org,2002:int', str(value),
+            value_node = yaml.ScalarNode('tag:yaml.org,2002:int',
+                                         _int_to_yaml(value),
                                          start_mark, end_mark)
         elif isinstance(value, float):
             value_node = yaml.ScalarNode('tag:yaml.org,2002:float',
